@@ -349,6 +349,12 @@ impl<T: Send> AsyncSender<T> {
 
 impl<T: Send> Clone for Sender<T> {
   fn clone(&self) -> Self {
+    // A closed handle no longer counts as a sender: its clone stays closed.
+    if self.closed {
+      let mut c = Sender::from_shared(Arc::clone(&self.shared));
+      c.closed = true;
+      return c;
+    }
     self.shared.add_sender();
     Sender::from_shared(Arc::clone(&self.shared))
   }
@@ -356,6 +362,12 @@ impl<T: Send> Clone for Sender<T> {
 
 impl<T: Send> Clone for AsyncSender<T> {
   fn clone(&self) -> Self {
+    // A closed handle no longer counts as a sender: its clone stays closed.
+    if self.closed {
+      let mut c = AsyncSender::from_shared(Arc::clone(&self.shared));
+      c.closed = true;
+      return c;
+    }
     self.shared.add_sender();
     AsyncSender::from_shared(Arc::clone(&self.shared))
   }
